@@ -86,17 +86,17 @@ def sh(cmd, timeout, mem_gb, cwd=None, env=None):
         resource.setrlimit(resource.RLIMIT_AS, (b, b))
         os.setsid()
     t0 = time.time()
+    p = subprocess.Popen(cmd, stdout=subprocess.PIPE, stderr=subprocess.PIPE, preexec_fn=lim, cwd=cwd, env=env)
     try:
-        p = subprocess.run(cmd, stdout=subprocess.PIPE, stderr=subprocess.PIPE, timeout=timeout,
-                           preexec_fn=lim, cwd=cwd, env=env)
-        return p.returncode, p.stdout.decode("utf-8", "replace"), p.stderr.decode("utf-8", "replace"), time.time() - t0
-    except subprocess.TimeoutExpired as e:
-        # kill the whole group
+        o, e = p.communicate(timeout=timeout)
+        return p.returncode, o.decode("utf-8", "replace"), e.decode("utf-8", "replace"), time.time() - t0
+    except subprocess.TimeoutExpired:
         try:
-            subprocess.run(["pkill", "-9", "-f", cmd[-1]], stdout=subprocess.DEVNULL, stderr=subprocess.DEVNULL)
-        except Exception:
+            os.killpg(p.pid, 9)          # the child is its own session/group leader (setsid above)
+        except OSError:
             pass
-        return -999, (e.stdout or b"").decode("utf-8", "replace"), "TIMEOUT", time.time() - t0
+        o, e = p.communicate()
+        return -999, (o or b"").decode("utf-8", "replace"), "TIMEOUT", time.time() - t0
 
 
 def lemma_dir(l):
@@ -112,6 +112,15 @@ def kf_defs(known):
 
 
 def run_lemma(l, known):
+    try:
+        res = _run_lemma(l, known)
+    except OSError as e:              # disk full and the like: undecided, never a violation
+        res = Result(l, "error", detail="I/O error while running the lemma: %s" % e)
+    _cleanup(lemma_dir(l), res)
+    return res
+
+
+def _run_lemma(l, known):
     d = lemma_dir(l)
     a, b = os.path.join(d, "a.gb"), os.path.join(d, "b.gb")
     for f in (a, b):
@@ -150,7 +159,9 @@ def run_lemma(l, known):
         if rc != 0:
             return Result(l, "error", detail="goto-instrument failed: " + (err + out)[-1500:], log=log, seconds=time.time() - t0)
         binary = b
-    us = BASE_UNWINDSET + ("," + l.unwindset if l.unwindset else "")
+    own = [e for e in l.unwindset.split(",") if e]
+    own_ids = {e.rsplit(":", 1)[0] for e in own}
+    us = ",".join([e for e in BASE_UNWINDSET.split(",") if e.rsplit(":", 1)[0] not in own_ids] + own)
     # DFCC renames an enforced function f to f_wrapped_for_contract_checking: name its loops too
     extra_us = []
     for e in l.enforce + l.enforce_rec:
@@ -170,6 +181,31 @@ def run_lemma(l, known):
         cb += ["--object-bits", str(l.object_bits)]
     cb += l.extra
     rc, out, err, secs = sh(cb, l.timeout, l.mem_gb)
+    return _judge(l, d, cb, rc, out, err, secs, log, t0, need_dfcc)
+
+
+def _cleanup(d, res):
+    """goto binaries are 10-100 MB per lemma (a thorough sweep has thousands of lemmas): drop them as
+    soon as the lemma is decided; keep cbmc's JSON (capped) only for lemmas that were not proved."""
+    if os.environ.get("VERIF_KEEP_BUILD"):
+        return
+    for f in ("a.gb", "b.gb"):
+        try:
+            os.remove(os.path.join(d, f))
+        except OSError:
+            pass
+    cj = os.path.join(d, "cbmc.json")
+    try:
+        if res.status == "proved":
+            os.remove(cj)
+        elif os.path.getsize(cj) > 8 << 20:
+            with open(cj, "r+") as f:
+                f.truncate(8 << 20)
+    except OSError:
+        pass
+
+
+def _judge(l, d, cb, rc, out, err, secs, log, t0, need_dfcc):
     if l.slice and '"status": "FAILURE"' in out.replace("VACUITY", "") and _has_real_failure(out, l):
         # a failure under --slice-formula may be an artefact: decide it again on the full formula
         cb = [c for c in cb if c != "--slice-formula"]
